@@ -223,7 +223,7 @@ def enum_cases(chunk):
                    "tc": "dt64", "cfg": "dicts"}
 
 
-SUBS = [Sub("climatology", lambda tier: gen.with_carrier(clim_case(tier)), check_clim, quick=3000, thorough=60000)]
+SUBS = [Sub("climatology", lambda tier: gen.with_carrier(clim_case(tier)), check_clim, quick=6000, thorough=60000)]
 ENUMS = [Enum("calendar_days", enum_chunks, enum_cases, check_clim,
               describe="every calendar day 2018-12-24..2022-01-07 against single periodic members (each period kind; "
                        "every single value of the period in the thorough tier, a 1/12 subsample in quick)",
